@@ -150,8 +150,8 @@ Definition fstep (s : fstate) (l : flabel) : fstate :=
   match l with
   | FThr i => fstep_thr s i
   | FOp (PGoc _ _ _ _) => s
-  | FOp (PWrite h _ as o) | FOp (PTrack h _ as o) =>
-      (* only a caller that was handed the endpoint can write to it / register tuples on it *)
+  | FOp (PWrite h _ as o) | FOp (PTrack h _ as o) | FOp (PRemove h as o) =>
+      (* only a caller that was handed the endpoint can write to it / register tuples on it / Remove it *)
       match nth_error (p_handles (f_p s)) h with
       | Some e => if existsb (fun x => snd x =? e) (f_hand s)
                   then mkF (fst (pstep (f_p s) o)) (f_thr s) (f_lock s) (f_hand s) (f_inval s)
